@@ -758,3 +758,95 @@ Proof.
   intros x Hok. destruct (roundtrip_via_registry_lemma x Hok) as (y & Hd & Ho).
   exists y. cbv beta. rewrite Hd. split; [reflexivity|exact Ho].
 Qed.
+
+(** * the decoded object is again a covered state: round trips can be iterated *)
+
+Lemma wf_rebased L c off : 0 <= L -> c <> 0 -> WF (rebased L c off).
+Proof.
+  intros HL Hc. exact (wf_mk_view_lemma L None None (Some c) off _ HL (mk_view_rebased L c off HL Hc)).
+Qed.
+
+Lemma seq_len_rebased L c off : seq_len (rebased L c off) = L.
+Proof. unfold rebased. split_ifs; reflexivity. Qed.
+
+Lemma wf_norm_rebased L c off : 0 <= L -> c <> 0 -> WF (norm_rebased L c off).
+Proof.
+  intros HL Hc. unfold norm_rebased. destruct ((c <? 0) && (L =? 0)); [|apply wf_rebased; assumption].
+  unfold WF. cbn. lia.
+Qed.
+
+Lemma fits_norm_rebased {A} L c off (sg : list A) : zlen sg = L -> Fits (norm_rebased L c off) sg.
+Proof.
+  intros HL. unfold norm_rebased. destruct ((c <? 0) && (L =? 0)) eqn:E.
+  - left. reflexivity.
+  - right. rewrite seq_len_rebased. exact HL.
+Qed.
+
+Lemma wf_with_off v o : WF v -> WF (with_off v o).
+Proof. intros [H1 H2]. split; [exact H1|exact H2]. Qed.
+
+Lemma fits_with_off {A} v o (p : list A) : Fits v p -> Fits (with_off v o) p.
+Proof. intros [H|H]; [left|right]; exact H. Qed.
+
+Lemma clean_rich_seq k v p : clean k p -> clean k (rich_seq v p).
+Proof.
+  unfold clean. rewrite !Forall_forall. intros H x Hx. apply H.
+  unfold rich_seq in Hx. destruct (rich_bounds v). exact (py_slice_In _ _ _ _ _ Hx).
+Qed.
+
+(** what [seq_of_dict] returns for an encoder-written dict is again [seq_ok] *)
+Lemma seq_decoded_ok st s d s' : seq_ok s -> seq_to_dict st s = JObj d -> seq_of_dict st d = Ok s' -> seq_ok s'.
+Proof.
+  intros [[Hwf Hfit] Hclean] Hd. unfold seq_to_dict in Hd. injection Hd as <-.
+  destruct s as [[v p k hid] nm inf]. cbn [s_core s_name s_info sv parent skind] in *.
+  set (L := zlen (rich_seq v p)). assert (HL : 0 <= L) by apply zlen_nonneg. pose proof (wf_step_nz v Hwf) as Hc.
+  pose proof (clean_rich_seq k v p Hclean) as Hcs.
+  destruct st; cbn [seq_of_dict].
+  - (* old style *)
+    unfold seq_of_dict_old. jget_simpl. cbn [get_str bind]. rewrite kind_of_label_of. cbn [bind].
+    destruct (view_to_dict SOld v p nm) as [| | | | |vd] eqn:Evd; try discriminate.
+    cbn [get_obj bind]. rewrite (view_decode_old SOld v p nm vd Hwf Evd). cbn [bind].
+    rewrite get_opt_str_jopt. cbn [bind]. rewrite info_roundtrip. cbn [bind get_int_default]. fold L.
+    destruct k; cbn [coerce_view].
+    + rewrite (copy_view_rebased L (step v) 0 HL Hc). cbn [bind].
+      rewrite (copy_view_norm_rebased L (step v) 0 HL Hc). cbn [bind].
+      rewrite (hand_over_zero _ _ (offset_norm_rebased _ _ _)). cbn [bind]. intros [= <-].
+      rewrite (clean_segment KDna v p Hclean). split; cbn [s_core sv parent skind]; [|exact Hcs].
+      split; cbn [sv parent]; [apply wf_with_off, wf_norm_rebased; assumption|apply fits_with_off, fits_norm_rebased; reflexivity].
+    + rewrite (copy_view_rebased L (step v) 0 HL Hc). cbn [bind].
+      rewrite (copy_view_norm_rebased L (step v) 0 HL Hc). cbn [bind].
+      rewrite (hand_over_zero _ _ (offset_norm_rebased _ _ _)). cbn [bind]. intros [= <-].
+      rewrite (clean_segment KRna v p Hclean). split; cbn [s_core sv parent skind]; [|exact Hcs].
+      split; cbn [sv parent]; [apply wf_with_off, wf_norm_rebased; assumption|apply fits_with_off, fits_norm_rebased; reflexivity].
+    + cbn [bind]. rewrite (hand_over_zero _ _ (offset_rebased _ _ _)). cbn [bind]. intros [= <-].
+      split; cbn [s_core sv parent skind]; [|exact Hcs].
+      split; cbn [sv parent]; [apply wf_with_off, wf_rebased; assumption|].
+      apply fits_with_off. right. rewrite seq_len_rebased. reflexivity.
+  - (* new style *)
+    unfold seq_of_dict_new. jget_simpl. cbn [get_str bind]. rewrite kind_of_label_of. cbn [bind].
+    unfold view_to_dict. cbn [get_obj bind]. jget_simpl. cbn [get_obj bind]. jget_simpl. cbn [get_str get_int bind].
+    rewrite get_opt_str_jopt. cbn [bind]. rewrite info_roundtrip. cbn [bind get_int_default]. fold L.
+    rewrite mk_view_none_step, (mk_view_rebased L 1 _ HL ltac:(lia)). cbn [bind].
+    unfold rebased at 1. replace (0 <? 1) with true by reflexivity.
+    destruct (Z_lt_le_dec 0 L) as [Hp|Hz].
+    + replace (0 <? L) with true by lia. rewrite (getitem_full_step L (step v) _ Hp Hc). cbn [bind]. intros [= <-].
+      split; cbn [s_core sv parent skind]; [|exact Hcs].
+      split; cbn [sv parent]; [apply wf_rebased; assumption|right; rewrite seq_len_rebased; reflexivity].
+    + assert (HL0 : L = 0) by lia. replace (0 <? L) with false by lia.
+      replace (getitem_slice FSeqView (mkV 0 0 1 L (parent_start v)) None None (Some (step v))) with (Ok (mkV 0 0 1 L (parent_start v))).
+      2:{ unfold getitem_slice. replace (vlen (mkV 0 0 1 L (parent_start v)) =? 0) with true by reflexivity. reflexivity. }
+      cbn [bind]. intros [= <-]. split; cbn [s_core sv parent skind]; [|exact Hcs].
+      split; cbn [sv parent]; [unfold WF; cbn; lia|left; reflexivity].
+Qed.
+
+(** hence a second (third, ...) round trip is observed equal to the original as well *)
+Lemma seq_roundtrip_twice_lemma st s d s1 d1 : seq_ok s -> seq_to_dict st s = JObj d -> seq_of_dict st d = Ok s1 ->
+  seq_to_dict st s1 = JObj d1 ->
+  exists s2, seq_of_dict st d1 = Ok s2 /\ observe_seq s2 = observe_seq s /\ seq_ok s2.
+Proof.
+  intros Hok Hd Hdec Hd1.
+  pose proof (seq_decoded_ok st s d s1 Hok Hd Hdec) as Hok1.
+  destruct (seq_roundtrip_lemma st s d Hok Hd) as (s1' & Hdec' & Hobs1). rewrite Hdec in Hdec'. injection Hdec' as <-.
+  destruct (seq_roundtrip_lemma st s1 d1 Hok1 Hd1) as (s2 & Hdec2 & Hobs2).
+  exists s2. split; [exact Hdec2|]. split; [congruence|]. exact (seq_decoded_ok st s1 d1 s2 Hok1 Hd1 Hdec2).
+Qed.
